@@ -111,9 +111,9 @@ def build_props(PROPS):
         level_note='quick tier covers the scanners, decoder, is_tld, is_ipaddr, is_utf8_domain, the eav_* API and one e-mail function; is_ipv6, is_special_domain and the other e-mail functions / back ends are in the thorough tier (their functional jobs carry the same safety obligations and run in the quick tiers of C05 / C09 / C01). Not covered: stack depth, real libidn2 internals (A7), allocation failure (A2).',
         trusted_base=TB_COMMON, technique=TECH)
     PROPS['C09'] = dict(
-        level='proof', quick=ALL(['is_special_domain_Bq', 'lemma_rank', 'lemma_rank_inst', 'email_822_host']), thorough=ALL(['is_special_domain_A', 'is_special_domain_B', 'is_utf8_domain']),
+        level='proof', quick=ALL(['is_special_domain_Aq', 'is_special_domain_Bq', 'lemma_rank', 'lemma_rank_inst', 'email_822_host']), thorough=ALL(['is_special_domain_A', 'is_special_domain_B', 'is_utf8_domain']),
         level_text='is_special_domain is proved for every valid host name of 1..253 bytes without root dot, any number / length / content of labels: job A (loop contracts over a dot-rank model of strchr) proves that the cursor reaches exactly the start of the second-to-last label (or the no-dot shortcut is taken iff there is no dot); job B proves that every comparison is made between a reserved word, its own length + 1 and the NUL-terminated copy of exactly the last / second-to-last label, and that the verdict is YES iff the last label is a reserved word or the last two are example.<com|net|org>, whatever the length of the second-to-last label; job lemma_rank proves the rank facts assumed by the strchr model.',
-        level_note='QUICK TIER: the verdict half only (job is_special_domain_Bq: the loops before the cut are havocked, the cut values installed, CBMC safety instrumentation off) + the rank lemmas + the call site; the position half (job A, 18 min) and the full verdict job B (40 min, 18 GB) with all safety obligations run in the thorough tier, because a quick check has to answer within 15 minutes. Composition of the halves is by the shared cut predicate (asserted in A, assumed in B). strncasecmp is an oracle (A6).',
+        level_note='QUICK TIER: both halves WITHOUT CBMC\'s memory-safety instrumentation (job is_special_domain_Aq: loop contracts + cut obligations, 1 min; job is_special_domain_Bq: the loops before the cut havocked, the cut values installed, verdict structure, 1 min) + the rank lemmas + the call site; the same two halves WITH all safety obligations (job A 18 min, job B 40 min / 18 GB) run in the thorough tier, because a quick check has to answer within 15 minutes. Composition of the halves is by the shared cut predicate (asserted in A, assumed in B). strncasecmp is an oracle (A6).',
         trusted_base=TB_COMMON, technique=TECH)
     PROPS['C12'] = dict(
         level='proof', quick=ALL(['lemma_local', 'is_5321_local', 'is_822_local', 'is_5322_local', 'is_6531_local', 'email_822_host', 'email_5321_host', 'email_5322_host']),
